@@ -142,7 +142,8 @@ pub fn tls_hosts(cfg: &EpConfig) -> Result<TlsHostsSettings, String> {
 }
 
 pub fn settings(cfg: &EpConfig) -> Result<Settings, String> {
-    let us = Duration::from_micros;
+    // never a whole number of milliseconds (see FRACTION_US)
+    let us = |v: u64| Duration::from_micros(if v % 1000 == 0 { v + FRACTION_US } else { v });
     let mut b = Settings::builder()
         .listen_address(cfg.listen)
         .map_err(|e| e.to_string())?
